@@ -6,6 +6,7 @@ import (
 	"fmt"
 	"net"
 	"os"
+	"sync/atomic"
 	"time"
 
 	"github.com/smart-core-os/sc-golang/internal/testproto"
@@ -48,7 +49,9 @@ func newWrapTransport() *transport {
 }
 
 func newGrpcTransport() (*transport, error) {
-	srv := &scriptSrv{}
+	// settle: on a real server a handler that has just seen ctx.Done() may be ahead of the transport by a
+	// few instructions (closeStream cancels the context before it marks the stream done)
+	srv := &scriptSrv{settle: true}
 	lis := bufconn.Listen(1 << 20)
 	gs := grpc.NewServer()
 	testproto.RegisterTestApiServer(gs, srv)
@@ -487,6 +490,59 @@ func genSystematic(r *vcoq.Rand) []Scenario {
 	return out
 }
 
+// after the client's context has ended: every ordered pair of handler actions (headers set, headers sent for the
+// first time or again, a trailer with or without metadata, a send, a receive), for every shape, with nothing /
+// pending header metadata / a header block the client has already seen before the end.  Run once per run in both
+// tiers: the random endings meet a given pair only about once in 300 scenarios (e.g. SendHeader-for-the-first-time
+// together with a non-empty SetTrailer: the recorded class 1 next to the repaired class 4).
+func genAfterEndPairs(r *vcoq.Rand) []Scenario {
+	acts := []string{"SetH", "SendH", "SetT", "SetT0", "S2C", "RecvEOF"}
+	mk := func(shape, a string) (Step, bool) {
+		switch a {
+		case "SetH", "SendH", "SetT":
+			return Step{K: a, MD: [][2]int{{r.Intn(nKeys), r.Range(1, 9)}}}, true
+		case "SetT0":
+			return Step{K: "SetT", MD: [][2]int{}}, true
+		case "S2C":
+			return Step{K: "S2C", M: r.Range(1, 99)}, srvHasStream(shape)
+		}
+		return Step{K: "RecvEOF"}, srvHasStream(shape) // the client has not half-closed in these scenarios
+	}
+	var out []Scenario
+	for _, shape := range shapes {
+		for _, before := range []string{"nothing", "pending", "seen"} {
+			if before == "seen" && shape == "unary" {
+				continue // Invoke has no Header() call that could take the block in before the end
+			}
+			for _, a := range acts {
+				for _, b := range acts {
+					sa, oka := mk(shape, a)
+					sb, okb := mk(shape, b)
+					if !oka || !okb {
+						continue
+					}
+					if !clientStreams(shape) && (a == "RecvEOF" || b == "RecvEOF") {
+						continue // the generated stub has half-closed
+					}
+					sc := Scenario{Shape: shape, Req: r.Range(1, 99), Steps: []Step{}}
+					if clientStreams(shape) {
+						sc.Req = 0
+					}
+					switch before {
+					case "pending":
+						sc.Steps = append(sc.Steps, Step{K: "SetH", MD: [][2]int{{r.Intn(nKeys), r.Range(1, 9)}}})
+					case "seen":
+						sc.Steps = append(sc.Steps, Step{K: "SendH", MD: genMD(r)}, Step{K: "CHeader"})
+					}
+					sc.Steps = append(sc.Steps, Step{K: "CtxEnd", DL: r.Chance(40)}, sa, sb, genRet(r, 50))
+					out = append(out, sc)
+				}
+			}
+		}
+	}
+	return out
+}
+
 // decorate adds the in-place modifications of metadata maps (which must be invisible) and the
 // re-submission of an already used map (whose contents at that moment are what the step says)
 func decorate(r *vcoq.Rand, sc *Scenario) {
@@ -610,6 +666,12 @@ func genC13(o *vcoq.Out, r *vcoq.Rand, tier string) error {
 	for i := 0; i < nRandom; i++ {
 		scs = append(scs, genRandom(r, shapes[i%len(shapes)]))
 	}
+	nPairs := 0
+	for i := 0; i < rounds/3; i++ {
+		ps := genAfterEndPairs(r)
+		nPairs += len(ps)
+		scs = append(scs, ps...)
+	}
 	// a call on a context that has already ended, both ways of ending, every shape
 	for _, shape := range shapes {
 		for _, dl := range []bool{false, true} {
@@ -682,6 +744,7 @@ func genC13(o *vcoq.Out, r *vcoq.Rand, tier string) error {
 	}
 	lookupCases(o, w, g)
 	misuseCases(o, w, g)
+	factsEvidence := factCases(o, g)
 	callerIncomingCases(o)
 	unwrapCases(o, r)
 	sendThenModifyCases(o, r, nIsoSend(tier))
@@ -693,8 +756,9 @@ func genC13(o *vcoq.Out, r *vcoq.Rand, tier string) error {
 	isolationCases(o, r, nIso)
 	abandonCases(o)
 	o.Extra["coverage_extra"] = map[string]any{"transports": []string{"wrap.ServerToClient", "grpc.Server over bufconn"}, "goroutine_checks": len(scs), "deep_isolation_checks": nIso,
-		"send_then_modify_checks": 4 * nIsoSend(tier), "model_branch_classes_hit": len(branchesHit), "client_misuse_cases": 2, "unwrap_cases": 14,
-		"guard_pass_rate": fmt.Sprintf("%d of %d call scenarios satisfy the theorems' guard wf (Go replica of C13Judge.wf; the generator stays inside the fragment by construction)", nGuard, len(scs))}
+		"send_then_modify_checks": 4 * nIsoSend(tier), "model_branch_classes_hit": len(branchesHit), "client_misuse_cases": 2, "unwrap_cases": 14, "grpc_reference_facts": factsEvidence, "after_end_pair_scenarios": nPairs,
+		"handler_calls_after_context_end": fmt.Sprintf("RecvMsg / SendMsg / SendHeader of a handler that has seen its context end fail on both transports (in both transcripts); on the real server a call that still succeeded was repeated until the transport had marked the stream done: %d repetition(s) this run", atomic.LoadInt64(&settleRetries)),
+		"guard_pass_rate":                 fmt.Sprintf("%d of %d call scenarios satisfy the theorems' guard wf (Go replica of C13Judge.wf; the generator stays inside the fragment by construction)", nGuard, len(scs))}
 	return nil
 }
 
